@@ -10,7 +10,11 @@
 (***************************************************************************)
 EXTENDS Integers, Sequences, FiniteSets, TLC
 
-CONSTANTS Emit      \* TRUE: print the table (run with -workers 1)
+CONSTANTS
+    Emit,             \* TRUE: print the table (run with -workers 1)
+    TypeAfterEncode   \* TRUE: the reply type is the success type only once the result has
+                      \* been encoded (the code); FALSE: it is fixed as soon as the request
+                      \* handler returned (sensitivity variant)
 
 Versions == 3 .. 6
 
@@ -103,6 +107,63 @@ AppCodes == {2, 3, 4, 5, 8, 9, 10, 11, 12, 13, 14, 15, 16, 17, 18, 19, 20, 21, 2
              25, 26, 27, 28, 29, 30, 31}
 
 -----------------------------------------------------------------------------
+(***************************************************************************)
+(* Fault class "the handler succeeded but its result cannot be encoded":   *)
+(* the application (an SFTPServer subclass, or the file system through     *)
+(* os.stat) hands back attributes / names / file system data that the      *)
+(* negotiated version cannot express (value out of range, wrong Python     *)
+(* type, wrong shape).  Owed: still exactly one reply with the request's   *)
+(* id, either the success type with a body that parses for the version, or *)
+(* a well-formed FXP_STATUS -- never a success type around a status body.  *)
+(* Encodable(v, t, f) is the model's prediction which of the two it is.    *)
+(***************************************************************************)
+AttrFaults == {"a_plain", "a_empty", "a_float_time", "a_owner_bytes", "a_neg_time",
+               "a_time_2_32", "a_time_2_64", "a_uid_2_32", "a_uid_neg", "a_size_2_64",
+               "a_size_neg", "a_perm_2_32", "a_ns_2_32", "a_ns_neg", "a_owner_only",
+               "a_owner_surrogate", "a_type_300", "a_nlink_2_32", "a_size_str",
+               "a_ext_bad", "real_neg", "real_far"}
+ShapeFaults == {"s_none", "s_int", "s_str", "s_tuple"}
+NameFaults == {"n_plain", "n_str", "n_surrogate", "n_int", "n_none"}
+DirNameFaults == NameFaults \cup {"n_longname_int"}
+VfsFaults == {"v_plain", "v_neg", "v_2_64"}
+
+UnencKinds == {"stat", "lstat", "fstat", "readdir", "realpath", "realpath_stat", "readlink",
+               "x_statvfs", "x_fstatvfs"}
+FaultsOf(t) ==
+    CASE t \in {"stat", "lstat", "fstat"} -> AttrFaults \cup ShapeFaults
+      [] t = "readdir" -> (AttrFaults \ {"real_neg", "real_far"}) \cup {"real_dir"}
+                          \cup DirNameFaults \cup ShapeFaults
+      [] t = "realpath_stat" -> AttrFaults \cup ShapeFaults
+      [] t \in {"realpath", "readlink"} -> NameFaults
+      [] t \in {"x_statvfs", "x_fstatvfs"} -> VfsFaults \cup ShapeFaults
+
+UnencRet(t) == IF t = "realpath_stat" THEN "name" ELSE RetType(t)
+
+AttrEncodable(v, f) ==
+    CASE f \in {"a_plain", "a_empty", "a_float_time", "a_owner_bytes"} -> TRUE
+      [] f \in {"a_neg_time", "a_time_2_64", "a_size_2_64", "a_size_neg", "a_perm_2_32",
+                "a_owner_surrogate", "a_size_str", "a_ext_bad", "real_neg", "real_dir"} -> FALSE
+      [] f \in {"a_time_2_32", "a_uid_2_32", "a_uid_neg", "a_owner_only", "real_far"} -> v >= 4
+      [] f \in {"a_ns_2_32", "a_ns_neg"} -> v = 3      \* v3 has no sub-second fields
+      [] f = "a_type_300" -> v <= 4    \* v3: no type byte; v4: types above FIFO fold to SPECIAL
+      [] f = "a_nlink_2_32" -> v < 6
+
+Encodable(v, t, f) ==
+    IF t = "realpath_stat" /\ v < 6 THEN TRUE             \* no stat before v6
+    ELSE IF f \in ShapeFaults THEN FALSE
+    ELSE IF f \in AttrFaults \cup {"real_dir"} THEN AttrEncodable(v, f)
+    ELSE IF f = "n_plain" THEN TRUE
+    ELSE IF f = "n_str"                \* a str name: the v3 long name is built from bytes
+         THEN ~(t = "readdir" /\ v = 3)
+    ELSE IF f = "n_longname_int" THEN v >= 4              \* longname travels only in v3
+    ELSE IF f \in NameFaults THEN FALSE
+    ELSE f = "v_plain"
+
+\* the type the server puts on the reply
+SentType(v, t, f) ==
+    IF Encodable(v, t, f) THEN UnencRet(t)
+    ELSE IF TypeAfterEncode THEN "status_err" ELSE "mistyped_" \o UnencRet(t)
+
 Cases ==
     {[k |-> "req", v |-> v, t |-> t, d |-> d, e |-> "-", code |-> 0] :
         v \in Versions, t \in ReqTypes, d \in Damages \ {"unknown_type", "unknown_ext",
@@ -113,6 +174,8 @@ Cases ==
         v \in Versions, e \in Errnos}
     \cup {[k |-> "apperr", v |-> v, t |-> "stat", d |-> "none", e |-> "-", code |-> cd] :
         v \in Versions, cd \in AppCodes}
+    \cup UNION {{[k |-> "unenc", v |-> v, t |-> t, d |-> "none", e |-> f, code |-> 0] :
+                    v \in Versions, f \in FaultsOf(t)} : t \in UnencKinds}
 
 VARIABLE case
 Init == case \in Cases
@@ -125,6 +188,9 @@ Expected ==
          IN  <<case.k, case.v, case.t, case.d, o.replies, o.types, o.alive>>
     ELSE IF case.k = "errno"
     THEN <<case.k, case.v, case.e, Status(case.e, case.v)>>
+    ELSE IF case.k = "unenc"
+    THEN <<case.k, case.v, case.t, case.e, SentType(case.v, case.t, case.e),
+           {"status_err", UnencRet(case.t)}>>
     ELSE <<case.k, case.v, case.code, Downgrade(case.code, case.v)>>
 
 Table == Emit => PrintT(Expected)
@@ -149,6 +215,11 @@ CodeInVersion ==
 V6Exact ==
     /\ (case.k = "errno" /\ case.v = 6) => Status(case.e, 6) = BaseCode(case.e)
     /\ (case.k = "apperr" /\ case.v = 6) => Downgrade(case.code, 6) = case.code
+
+\* a result that cannot be encoded is reported as an error status, never under the
+\* success type
+WellTypedReply ==
+    case.k = "unenc" => SentType(case.v, case.t, case.e) \in {"status_err", UnencRet(case.t)}
 
 \* sensitivity: without the version filter the table would send undefined codes
 NoFilterOk == case.k = "errno" => BaseCode(case.e) <= LastCode(case.v)
